@@ -500,16 +500,28 @@ def run_art(P, res, pl):
                 raise InternalError('first lookup should find nothing')
             S.callers[0].results = []
             S.server.custom = real; S.server.art_requests = []
+        # a notification may cross the lookup: before it (answered in the `noidle` reply) or during it; the user may have dropped
+        # the event receiver (documented as allowed) - the lookup is not affected by either
+        wide = pl['limit'] == 2           # (the three-way notification choice and the dropped receiver only for one chunk limit: path count)
+        extra = I.ctx.choose(3 if wide else 2, 'notify')
+        I._artn = (extra, False)
+        if wide and extra and not pl.get('two') and I.ctx.choose(2, 'dropev') == 1:
+            S.drop_events()
+            I._artn = (extra, True)
+        I._art_choice = (src, mime, other_err)
+        if extra == 2:
+            S.change(b'player')
         S.issue(0)
-        extra = I.ctx.choose(2, 'notify')
-        if extra:
+        if extra == 1:
             S.change(b'player')
         S.settle()
         return S, src, mime, picture, other_err
     for pr in explore(P, harness):
         res.paths += 1
         if pr.kind == 'panic':
-            res.violations.append({'what': 'album_art panics: ' + pr.error.msg[:100], 'input': {'scenario': pl}}); continue
+            ch = getattr(pr.interp, '_art_choice', (0, None, None)); ax = getattr(pr.interp, '_artx', (None, False, False, False)); an = getattr(pr.interp, '_artn', (0, False))
+            res.violations.append({'what': 'album_art panics: ' + pr.error.msg[:100], 'input': {'scenario': pl, 'source': ch[0], 'mime': ch[1] is not None, 'other_err': ch[2],
+                                   'limit2': ax[0], 'cutlf': ax[1], 'late_err': ax[2], 'lie': ax[3], 'notify': an[0], 'dropev': an[1]}}); continue
         S, src, mime, picture, other_err = pr.value
         c = S.callers[0]
         bad = None
@@ -552,7 +564,8 @@ def run_art(P, res, pl):
         res.cls('art source %d' % src, nontrivial=True)
         if bad:
             res.violations.append({'what': bad, 'input': {'scenario': pl, 'source': src, 'mime': mime is not None, 'other_err': other_err,
-                                                          'limit2': pr.interp._artx[0], 'cutlf': pr.interp._artx[1], 'late_err': pr.interp._artx[2], 'lie': pr.interp._artx[3]}})
+                                                          'limit2': pr.interp._artx[0], 'cutlf': pr.interp._artx[1], 'late_err': pr.interp._artx[2], 'lie': pr.interp._artx[3],
+                                                          'notify': pr.interp._artn[0], 'dropev': pr.interp._artn[1]}})
         if len(res.samples) < 1:
             res.samples.append({'size': size, 'limit': limit, 'source': src, 'requests': [r.decode() for r in reqs]})
         res.take_stats(pr.ctx.stats); pr.ctx.stats.__init__()
@@ -707,7 +720,8 @@ def replay_for(prop, rec, every=0):
         if pl.get('two'):
             out = run_replay(['client', 'art:other;art:song', '-', 'OK', spec, 'loop', 'issue0'] + ['loop', 'deliver'] * 12 + ['poll0', 'issue0'])
         else:
-            out = run_replay(['client', 'art:song', '-', 'OK', spec, 'loop', 'issue0'])
+            steps = ['loop'] + (['dropevents'] if inp.get('dropev') else []) + (['change:player'] if inp.get('notify') == 2 else []) + ['issue0'] + (['change:player'] if inp.get('notify') == 1 else [])
+            out = run_replay(['client', 'art:song', '-', 'OK', spec] + steps)
         if 'panic' in out:
             return True, 'native run panics'
         picture = bytes([0x41 + (i % 5) if i % 3 else 10 for i in range(pl['size'])])
